@@ -6,6 +6,7 @@ patch=$(realpath "$1"); shift
 cd /repo || exit 3
 if ! git diff --quiet; then echo "/repo has uncommitted changes"; exit 3; fi
 git apply "$patch" || { echo "patch does not apply"; exit 3; }
+export VERIF_EVIDENCE_DIR=/verif/build/tmp/evidence-mutated   # evidence/ is only written by runs against the tree as it stands
 for p in "$@"; do
   out=$(cd /verif && timeout 3000 python3-vt engine/run.py --property "$p" --tier "${TIER:-quick}" 2>&1)
   code=$?
